@@ -4,7 +4,8 @@
     these functions changes shape, the corresponding [Lemma] stops checking
     and the check searches for a concrete failing input. *)
 From Coq Require Import List NArith Bool String.
-From Verif Require Import Sni.Wire Sni.WireGen Sni.SchedSkel Sni.Rpc Gen.WireSchema Gen.TransportSkel.
+From Verif Require Import Lib.Bytes Sni.Wire Sni.WireGen Sni.SchedSkel Sni.Rpc Gen.WireSchema Gen.TransportSkel.
+From Verif Require Import Sni.RpcProofs Sni.RpcCtx Sni.RpcCtxProofs.
 Import ListNotations.
 Local Open Scope string_scope.
 
@@ -159,3 +160,78 @@ Definition no_hint_calls : bool :=
 
 Lemma gen_no_hint_calls : no_hint_calls = true.
 Proof. vm_compute. reflexivity. Qed.
+
+(** ** Contexts that end (Sni/RpcCtx.v)
+
+    What [transport.call] and [transport.asyncCall] do in their select arm on
+    [ctx.Done()]: return, and nothing else -- in particular no message to the
+    serve goroutine.  The only place that asks serve to look a call up (a
+    [pendingFetch]) is the reader, under the id it decoded from the reply
+    frame; the only place that writes the id of an exchange is serve, when it
+    takes the exchange off the queue.  So a caller that gives up cannot name
+    a call to serve at all, let alone by an id read from its exchange before
+    serve has assigned it. *)
+Definition silent_arm (ls : list string) : bool :=
+  match ls with
+  | [l] => String.prefix "0 return " l
+  | _ => false
+  end.
+
+Definition gen_giveup_shape : giveup_shape :=
+  if forallb (fun a => silent_arm (snd a)) gen_ctx_done_arms
+     && list_eqb String.eqb (map fst gen_ctx_done_arms) ["transport.asyncCall"; "transport.call"]
+     && list_eqb String.eqb (map fst gen_pendingFetch_makers) ["transport.handleMessage"]
+  then GuSilent else GuFetchField.
+
+Lemma gen_giveup_silent : gen_giveup_shape = GuSilent.
+Proof. vm_compute. reflexivity. Qed.
+
+Lemma gen_ctx_done_arms_return_only :
+  gen_ctx_done_arms = [ ("transport.asyncCall", ["0 return ctx.Err()"]);
+                        ("transport.call", ["0 return ctx.Err()"]) ].
+Proof. vm_compute. reflexivity. Qed.
+
+Lemma gen_fetch_only_by_reader :
+  gen_pendingFetch_makers = [("transport.handleMessage", "id")].
+Proof. vm_compute. reflexivity. Qed.
+
+Lemma gen_id_written_by_serve_only :
+  gen_exchange_id_writers = [("transport.serve", "c.id = id")].
+Proof. vm_compute. reflexivity. Qed.
+
+(** ** The seeded change C03-e, as a counter-model
+
+    [call()] gives up by sending serve a pendingFetch with [ex.id] read from
+    its exchange (shape [GuFetchField]).  History: call 10 is taken (id 0),
+    sent and recorded; call 11 is put into the queue; its context ends there
+    -- its exchange still carries id 0 --; serve takes and sends it (id 1);
+    the peer answers call 10.  With the silent give-up call 10 completes
+    with the peer's reply.  With [GuFetchField] the entry of call 10 is
+    gone: the reply is discarded, and nothing that can happen afterwards
+    completes call 10 with a reply. *)
+Local Open Scope N_scope.
+
+Definition ctx_hello (k : N) : pcall := mkCall k 1 (assoc_str "helloResponse" gen_schemas) 0.
+Definition ctx_hello_reply (id : N) (msg : bytes) : bytes :=
+  reply_frame id 1 0 (enc_schema [KStr] [VBytes msg]).
+
+Definition eviction_history : list xevent :=
+  [ XEnqueue (ctx_hello 10); XTake true; XEnqueue (ctx_hello 11); XGiveUp 11; XTake true;
+    XOther (EReply (ctx_hello_reply 0 [65])) ].
+
+Theorem fetch_field_refuted :
+  status (x_st (xrun gen_alloc_max two64 GuSilent eviction_history)) 10 = Some (ROk [VBytes [65]]) /\
+  xview (xrun gen_alloc_max two64 GuSilent eviction_history) 11 = VCtx /\
+  let s := xrun gen_alloc_max two64 GuFetchField eviction_history in
+  status (x_st s) 10 = None /\ running (x_st s) = true /\ pending (x_st s) = [(1, ctx_hello 11)] /\
+  forall tr, Forall (fun e => ~ enqueues 10 e) tr ->
+    forall vs, status (x_st (xrun_from gen_alloc_max two64 GuFetchField s tr)) 10 <> Some (ROk vs).
+Proof.
+  split; [vm_compute; reflexivity|]. split; [vm_compute; reflexivity|].
+  cbv zeta. split; [vm_compute; reflexivity|]. split; [vm_compute; reflexivity|].
+  split; [vm_compute; reflexivity|].
+  intros tr Hf vs. apply xabsent_never_succeeds; [|exact Hf].
+  repeat split.
+  - intros i c Hin. vm_compute in Hin. destruct Hin as [[= <- <-]|[]]. vm_compute. discriminate.
+  - intros vs' Hin. vm_compute in Hin. exact Hin.
+Qed.
